@@ -53,4 +53,6 @@ class Context:
 
     def witness(self, path, flags=()):
         d = build.extract_file(self.root, path, list(flags))
-        return Program([d], self.root)
+        w = Program([d], self.root)
+        w.partial = True        # a single stand-alone unit: functions it only declares are defined elsewhere
+        return w
